@@ -52,6 +52,7 @@ struct vfd {
     int peer_closed;            /* EOF after the queued input */
     int err;                    /* POLLERR pending (reset) */
     int stalled;                /* peer does not read: writes accept nothing */
+    int flood;                  /* peer sends without end: every read() finds more bytes */
     long wcap;                  /* total bytes the next writes may still accept, -1 = unlimited */
     enum cstate cs;             /* tcp connect progress */
     int soerr;
@@ -212,12 +213,21 @@ pid_t __wrap_waitpid(pid_t pid, int *st, int o)
     nkids_live--; if (st) *st = SIGTERM; tr("WAIT pid=%d live=%d", pid, nkids_live); return pid;
 }
 
+static int flood_reads;     /* reads served from a flooding peer since the last poll() */
 ssize_t __wrap_read(int fd, void *buf, size_t n)
 {
     if (!IS(fd)) return __real_read(fd, buf, n);
     struct vfd *v = vf(fd);
     if (v->k == K_FREE) { errno = EBADF; return -1; }
     if (v->err) { errno = ECONNRESET; return -1; }
+    if (v->inlen == 0 && v->flood && !v->peer_closed) {
+        /* a flooding peer: there is always more.  A loop that reads until EAGAIN never gets back to poll(): everybody else starves */
+        if (++flood_reads > 200) { tr("HANG read-loop %s reads=%d (the peer keeps sending; the daemon never returned to poll)", kname(v), flood_reads); fflush(out); _exit(98); }
+        size_t m = n < 1000 ? n : 1000;
+        for (size_t i = 0; i < m; i++) ((unsigned char *)buf)[i] = (unsigned char)(33 + (i * 7 + flood_reads) % 90);
+        tr("RD %s n=%zu req=%zu flood", kname(v), m, n);
+        return m;
+    }
     if (v->inlen == 0) { if (v->peer_closed) { tr("RD %s eof", kname(v)); return 0; } errno = EAGAIN; return -1; }
     size_t m = n < (size_t)v->inlen ? n : (size_t)v->inlen;
     memcpy(buf, v->in, m); memmove(v->in, v->in + m, v->inlen - m); v->inlen -= m;
@@ -296,7 +306,7 @@ static int compute_ready(struct pollfd *p, nfds_t n)
                 else if (v->cs == CS_REFUSED_SOERR) p[i].revents |= (p[i].events & POLLOUT);
                 /* CS_INPROGRESS / CS_NONE: nothing */
             } else {
-                if ((p[i].events & POLLIN) && (v->inlen > 0 || v->peer_closed)) p[i].revents |= POLLIN;
+                if ((p[i].events & POLLIN) && (v->inlen > 0 || v->peer_closed || v->flood)) p[i].revents |= POLLIN;
                 /* socketpair peer gone, or full close: HUP at once; tcp FIN / client half-close: only readable-EOF */
                 if (v->peer_closed && (v->k == K_PIPE || v->peer_closed == 2)) p[i].revents |= POLLHUP;
                 if (v->err) p[i].revents |= POLLERR;
@@ -310,6 +320,7 @@ static int compute_ready(struct pollfd *p, nfds_t n)
 
 int __wrap_poll(struct pollfd *p, nfds_t n, int tmo)
 {
+    flood_reads = 0;
     rounds++;
     if (want_state) report_state();
     if (want_mem) { struct mallinfo2 mi = mallinfo2(); tr("MEM inuse=%zu", (size_t)mi.uordblks); }
@@ -344,6 +355,7 @@ int __wrap_poll(struct pollfd *p, nfds_t n, int tmo)
             else if (!strcmp(w, "FULLCLOSE")) v->peer_closed = 2;
             else if (!strcmp(w, "RST")) v->err = 1;
             else if (!strcmp(w, "STALL")) v->stalled = atoi(rest);
+            else if (!strcmp(w, "FLOOD")) v->flood = atoi(rest);
             else if (!strcmp(w, "WCAP")) v->wcap = atol(rest);
             else if (!strcmp(w, "CONNDONE")) { if (v->cs == CS_INPROGRESS) v->cs = !strcmp(rest, "refuse-hup") ? CS_REFUSED_HUP : !strcmp(rest, "refuse-soerr") ? CS_REFUSED_SOERR : CS_OK; if (v->cs != CS_OK) v->soerr = ECONNREFUSED; }
             else tr("IGNORED %.60s", line);
